@@ -48,7 +48,7 @@ func main() {
 		panic(err)
 	}
 	defer os.RemoveAll(workdir)
-	p := &parent{r: r, workdir: workdir, repo: os.Getenv("VERIF_REPO"), durMS: 2500}
+	p := &parent{r: r, workdir: workdir, repo: os.Getenv("VERIF_REPO"), durMS: 2000}
 	if p.repo == "" {
 		p.repo = "/repo"
 	}
@@ -143,7 +143,7 @@ func main() {
 	var jobs []job
 	add := func(ops []string) { jobs = append(jobs, job{ops, rng.U64() % 1000000}) }
 	runnable := runnableOps()
-	nRandom, nPairs := 40, 24
+	nRandom, nPairs := 36, 16
 	if r.Thorough() {
 		p.durMS = 6000
 		nRandom, nPairs = 400, 0
